@@ -1525,3 +1525,70 @@ func (c *Ctl) Op(b Inner) error { return nil }
 		}
 	}
 }
+
+// C10 through the front end, one anomaly at a time around a well-formed route
+func vh_C10_front_anomalies_Q() {
+	type variant struct {
+		anns, sig string
+		valid     bool
+	}
+	base := "// @Method(POST)\n// @Route(/op/{id})\n// @Path(id)\n"
+	variants := []variant{
+		{base + "// @Body(b)\n", "(id string, b Model) error", true},
+		{base + "// @Body(b)\n", "(ctx context.Context, id string, b Model) (Model, error)", true},
+		{base + "// @Body(a)\n// @Body(b)\n", "(id string, a Model, b Model) error", false},                          // two bodies
+		{base + "// @Body(b)\n// @FormField(f)\n", "(id string, b Model, f string) error", false},                   // body together with a form field
+		{base + "// @Query(b)\n", "(id string, b Model) error", false},                                                 // struct in the query
+		{"// @Method(POST)\n// @Route(/op/{id})\n// @Path(id)\n// @Path(id2, { name: \"id\" })\n", "(id string, id2 string) error", false}, // two bindings of one URL name
+		{base + "// @Body(b)\n", "(id string, b Model) (error, Model)", false},                                       // error not last
+		{base + "// @Body(b)\n", "(id string, b Model) (Model, Model, error)", false},                                // three return values
+		{base + "// @Body(b)\n", "(id string, b Model) Model", false},                                                // no error
+		{base + "// @Body(b)\n// @Query(b)\n", "(id string, b Model) error", false},                                  // one parameter referenced twice
+		{base, "(id string, extra int) error", false},                                                                  // unreferenced parameter
+		{base + "// @Header(h)\n// @FormField(f)\n", "(id string, h int, f bool) error", true},                       // header and form field of primitive types
+		{"// @Method(PATCH)\n// @Route(/op/{id})\n// @Path(id)\n", "(id string) error", true},                          // a supported verb
+		{"// @Method(TRACE)\n// @Route(/op/{id})\n// @Path(id)\n", "(id string) error", false},                         // a verb routes do not support
+		{"// @Method(post)\n// @Route(/op/{id})\n// @Path(id)\n", "(id string) error", false},                          // verbs are upper case
+	}
+	v := variants[symxChoice("variant", len(variants))]
+	src := `package ctl
+
+import (
+	"context"
+
+	"github.com/gopher-fleece/runtime"
+)
+
+var _ context.Context
+
+type Model struct {
+	X string
+}
+
+// @Tag(T)
+// @Route(/c)
+type Ctl struct {
+	runtime.GleeceController
+}
+
+` + v.anns + `func (c *Ctl) Op` + v.sig + ` {
+	panic("unused")
+}
+`
+	fr, err := visitors.VhLoadSource(src, nil)
+	symxAssert(err == nil, "C10.front.fixture-loads")
+	if err != nil {
+		return
+	}
+	_, err = pipeline.VhNewPipeline(fr, vhFrontConfig()).Run()
+	if err != nil {
+		symxRecord("refused", "yes")
+	}
+	if v.valid {
+		symxCover("C10.front.anomalies.well-formed")
+		symxAssert(err == nil, "C10.front.well-formed-route-is-never-rejected")
+	} else {
+		symxCover("C10.front.anomalies.ill-formed")
+		symxAssert(err != nil, "C10.front.inconsistent-route-is-rejected")
+	}
+}
